@@ -219,3 +219,14 @@ package parser
 //@   invariant s.s == query && scOK(s.last, s.pos, len(query))
 //@   invariant start + 2 <= s.pos && query[start] == '/' && query[start+1] == '/' && noNL(query, start + 2, s.pos)
 //@   decreases len(query) - s.pos
+
+//@ func parser.SplitStatements
+//@   use lex
+//@   ensures @count: len(result) == nsemi(scanOf(source), len(scanOf(source))) + 1
+//@   ensures @join: Str.cat(joinSemi(result, len(result) - 1), result[len(result)-1]) == source
+//@ loop 1
+//@   invariant -1 <= rangeindex && rangeindex < len(tokens)
+//@   invariant 0 <= start && start <= len(source) && forall(j, rangeindex + 1, len(tokens), start <= tokens[j].Span.Start)
+//@   invariant len(parts) == nsemi(tokens, rangeindex + 1)
+//@   invariant joinSemi(parts, len(parts)) == source[0:start]
+//@   decreases len(tokens) - rangeindex
